@@ -2,6 +2,8 @@
 From Coq Require Import List Bool NArith.
 From SF Require Import Base.Str Base.Corr.
 From SF Require Export Prov.Model.
+From SF Require Prov.Steps Net.Model Gather.Model Comb.Model Comb.Proofs Comb.Cart.
+From Coq Require Import ZArith.
 Import ListNotations.
 
 Inductive ccase :=
@@ -10,7 +12,25 @@ Inductive ccase :=
 | CProv (toks : list N) (edges : list edge) (expected : list (N * list N)) (verdict : bool)
 (* a recorded interleaving of _persist_token calls (Begin/Save/Prov) and the edges it wrote, newest first *)
 | CDisc (start : N) (ops : list pop) (edges : list edge)
+(* step-level provenance (kind `stepprov`): what a step recorded for its emissions vs the id-carrying step models of
+   Prov/Steps.v.  Merge-style steps are run on the canonical arrival order (port after port): their records per
+   emitted token do not depend on the order (theorems C07_step_inputs_...), bags are compared. *)
+| CRounds (nin nout : nat) (rounds : list (list (string * Z))) (obs : list (string * list Z))
+| CDot (items : list string) (arr : list (string * (N * string))) (obs : list (list N))
+| CCart (items : list string) (d : nat) (arr : list (string * (N * string))) (obs : list (list N))
+| CGather (sizes : list (string * N * N)) (elems : list (string * N)) (obs : list (string * list N))
 | CAnd (a b : ccase).
+
+Fixpoint remove_by {A} (eqb : A -> A -> bool) (x : A) (l : list A) : option (list A) :=
+  match l with
+  | [] => None
+  | y :: r => if eqb x y then Some r else match remove_by eqb x r with Some r' => Some (y :: r') | None => None end
+  end.
+Fixpoint bag_eqb {A} (eqb : A -> A -> bool) (a b : list A) : bool :=
+  match a with
+  | [] => match b with [] => true | _ => false end
+  | x :: r => match remove_by eqb x b with Some b' => bag_eqb eqb r b' | None => false end
+  end.
 
 Definition edge_eqb (a b : edge) : bool := N.eqb (fst a) (fst b) && N.eqb (snd a) (snd b).
 
@@ -23,5 +43,29 @@ Fixpoint check_case (c : ccase) : bool :=
                   forallb (fun e => existsb (edge_eqb e) edges) (pedges d)
       | None => false
       end
+  | CRounds nin nout rounds obs =>
+      let model := Prov.Steps.rounds_prov (Net.Model.KXf 0%Z []) nin nout []
+                     (map (map (fun p => Net.Model.Tok (fst p) (snd p))) rounds) in
+      list_eqb (pair_eqb String.eqb (bag_eqb Z.eqb)) model obs
+  | CDot items arr obs =>
+      let r := Comb.Model.run (Comb.Proofs.c1 items) Comb.Model.init_state arr in
+      match snd r with
+      | None => bag_eqb (bag_eqb N.eqb) (map Prov.Steps.schema_ids (concat (fst r))) obs
+      | Some _ => false
+      end
+  | CCart items d arr obs =>
+      let r := Comb.Model.run (Comb.Cart.cc items d) Comb.Model.init_state arr in
+      match snd r with
+      | None => bag_eqb (bag_eqb N.eqb) (map Prov.Steps.schema_ids (concat (fst r))) obs
+      | Some _ => false
+      end
+  | CGather sizes elems obs =>
+      let arr := map (fun s => Gather.Model.OnSize (fst (fst s)) (snd (fst s))) sizes ++
+                 map (fun e => Gather.Model.OnElem (Prov.Steps.idtok (fst e) (snd e))) elems ++
+                 [Gather.Model.OnTerm Gather.Model.SizeP Gather.Model.Completed;
+                  Gather.Model.OnTerm Gather.Model.ElemP Gather.Model.Completed] in
+      let outs := Gather.Model.gout (Gather.Model.gd (Gather.Model.gather_run 1 arr)) in
+      bag_eqb (pair_eqb String.eqb (bag_eqb N.eqb))
+              (map (fun o => (Gather.Model.tag_of o, Prov.Steps.gather_prov sizes o)) outs) obs
   | CAnd a b => check_case a && check_case b
   end.
